@@ -1157,3 +1157,16 @@ func dumpPath(p *Prog, i int, pa *Path) string {
 	}
 	return b.String()
 }
+
+// IterRegion walks one iteration of loop l starting at its header; a path
+// ends at the back-edge to the header ("stop") or continues past the loop to
+// the function's return (so the exit handlers and the post-loop tail are part
+// of the path).  Other loops met on the way end the path as "cycle".
+func (w *Walker) IterRegion(fn *ssa.Function, l *Loop) []*Path {
+	return w.Run(fn, l.Header, map[*ssa.BasicBlock]bool{l.Header: true})
+}
+
+// PreludeRegion walks from the function entry to the header of loop l.
+func (w *Walker) PreludeRegion(fn *ssa.Function, l *Loop) []*Path {
+	return w.Run(fn, fn.Blocks[0], map[*ssa.BasicBlock]bool{l.Header: true})
+}
